@@ -24,7 +24,9 @@ func TestMain(m *testing.M) { ev.Main(m, "C18") }
 
 var (
 	ourNicks   = []string{"me", "n2", "Al ice", `x&y<z>'"`, "ünï"}
-	otherNicks = []string{"alice", "Bob B", "gh&st"}
+	// (other occupants, some of whose nicknames differ from ours only in the
+	// case of letters: resourceparts are compared exactly)
+	otherNicks = []string{"alice", "Bob B", "gh&st", "Me", "ME", "N2", "al ice", "ÜNÏ"}
 	errConds   = []stanza.Error{
 		{Type: stanza.Cancel, Condition: stanza.Conflict},
 		{Type: stanza.Auth, Condition: stanza.NotAuthorized},
